@@ -8,6 +8,7 @@
 -/
 import Bkl.Output
 import Bkl.Encode
+import Bkl.Process2
 namespace Bkl
 
 /-- errors of a translated function: running out of recursion fuel (Go: unbounded stack) -/
@@ -80,6 +81,43 @@ def asInt : Val → Int × Bool
     untranslated functions can tell one handle from another -/
 abbrev Opaque := String
 
+/-- `*Document` as a record (units that look into documents): the parents are never inspected by translated code -/
+structure Doc where
+  id : String
+  parents : Opaque
+  data : Val
+  /-- the nil pointer (`var ret *Document`) -/
+  isNil : Bool := false
+  deriving Inhabited
+
+def Doc.nil : Doc := { id := "", parents := "", data := .null, isNil := true }
+
+/-- `*EvalContext` -/
+structure Ctx where
+  vars : Fields
+  deriving Inhabited
+
+/-- `l[i]` on a `[]any` for an index inside the slice (outside: Go panics; the translated functions guard the access) -/
+def listAt (l : List Val) (i : Int) : Val :=
+  if i < 0 then .null else l.getD i.toNat .null
+
+/-- `interpRE.ReplaceAllStringFunc(s, f)` for `interpRE = {.*?}`: the matches are those of the model's segment scanner
+    (`interpSegs`: leftmost, shortest, no newline inside the braces); `f` gets the matched text with its braces and, being a
+    state-passing function literal, the state -/
+def replaceSegs {σ : Type} (f : String → σ → G (String × σ)) : List Seg → String → σ → G (String × σ)
+  | [], acc, st => .ok (acc, st)
+  | .lit cs :: rest, acc, st => replaceSegs f rest (acc ++ String.ofList cs) st
+  | .ref cs :: rest, acc, st =>
+    match f (String.ofList ('{' :: cs ++ ['}'])) st with
+    | .error e => .error e
+    | .ok (r, st') => replaceSegs f rest (acc ++ r) st'
+
+def replaceAllInterp {σ : Type} (s : String) (f : String → σ → G (String × σ)) (st : σ) : G (String × σ) :=
+  replaceSegs f (interpSegs s.toList) "" st
+
+/-- the index values of `for i := 0; i < n; i++` -/
+def intRange (n : Int) : List Int := (List.range n.toNat).map Int.ofNat
+
 /-- `l[i]` on a `[]string` for an index inside the slice (outside: Go panics; the translated functions guard the access
     with `len`) -/
 def strAt (l : List String) (i : Int) : String :=
@@ -117,6 +155,14 @@ def replaceAll (s old new : String) : String :=
 
 /-- strings.HasPrefix -/
 def hasPrefix (s p : String) : Bool := isPrefixChars p.toList s.toList
+
+/-- strings.HasSuffix / TrimPrefix / TrimSuffix -/
+def hasSuffix (s p : String) : Bool := isPrefixChars p.toList.reverse s.toList.reverse
+def trimPrefix (s p : String) : String :=
+  if isPrefixChars p.toList s.toList then String.ofList (s.toList.drop p.toList.length) else s
+def trimSuffix (s p : String) : String :=
+  if hasSuffix s p then String.ofList (s.toList.take (s.toList.length - p.toList.length)) else s
+
 
 /-- utf8string.String.At(i) for an index inside the string (outside: Go panics; the translated functions guard
     the access with RuneCount) -/
